@@ -1,4 +1,4 @@
-import Vflow.Model.Base
+import Vflow.Model.Text
 /-!
 # Text forms of addresses: `net.IP.String`, `net.HardwareAddr.String`
 
@@ -8,9 +8,7 @@ Dotted quad for 4 octets and for IPv4-mapped 16-octet addresses, RFC 5952 text (
 -/
 namespace Vflow
 
-def natToDec (n : Nat) : String := toString n
-
-def ip4String (b : Bytes) : String := ".".intercalate (b.map fun x => natToDec x.toNat)
+def ip4Bytes (b : Bytes) : Bytes := joinSep 46 (b.map fun x => natDigits x.toNat)
 
 def octetAt (b : Bytes) (i : Nat) : Nat := (b.getD i 0).toNat
 
@@ -29,26 +27,24 @@ def bestZeroRun : List Nat → Nat → Nat × Nat → Nat × Nat
     let l := zeroRunLen (g :: t)
     bestZeroRun t (i + 1) (if l ≥ 2 ∧ l > best.2 then (i, l) else best)
 
-def hexNoLead (n : Nat) : String := String.ofList (Nat.toDigits 16 n)
-
-def ip6String (b : Bytes) : String :=
+def ip6Bytes (b : Bytes) : Bytes :=
   let g := groups b
-  let (s, l) := bestZeroRun g 0 (0, 0)
-  if l == 0 then ":".intercalate (g.map hexNoLead) else
-  ":".intercalate ((g.take s).map hexNoLead) ++ "::" ++ ":".intercalate ((g.drop (s + l)).map hexNoLead)
+  let sl := bestZeroRun g 0 (0, 0)
+  if sl.2 == 0 then joinSep 58 (g.map hexDigits) else
+  joinSep 58 ((g.take sl.1).map hexDigits) ++ [58, 58] ++ joinSep 58 ((g.drop (sl.1 + sl.2)).map hexDigits)
 
 /-- `IP.To4` on a 16-octet slice succeeds -/
 def isV4Mapped (b : Bytes) : Bool :=
   b.length == 16 && (b.take 10).all (· == 0) && octetAt b 10 == 255 && octetAt b 11 == 255
 
 /-- `net.IP.String` -/
-def ipString (b : Bytes) : String :=
-  if b.length == 0 then "<nil>" else
-  if b.length == 4 then ip4String b else
-  if b.length == 16 then (if isV4Mapped b then ip4String (b.drop 12) else ip6String b) else
-  "?" ++ hex b
+def ipBytes (b : Bytes) : Bytes :=
+  if b.length == 0 then [60, 110, 105, 108, 62] else            -- <nil>
+  if b.length == 4 then ip4Bytes b else
+  if b.length == 16 then (if isV4Mapped b then ip4Bytes (b.drop 12) else ip6Bytes b) else
+  63 :: hexBytes b                                               -- ?hex
 
 /-- `net.HardwareAddr.String`: two hex digits per octet, colon-separated -/
-def macString (b : Bytes) : String := ":".intercalate (b.map fun x => hex [x])
+def macBytes (b : Bytes) : Bytes := joinSep 58 (b.map fun x => hexBytes [x])
 
 end Vflow
